@@ -1,51 +1,19 @@
 """C09 - a port serialises at its line rate and tail-drops exactly at its limit"""
-from ..compare import View
-from ..paths import Options
-from . import common
-
-PORT_PUT = '''
-def put(self, packet):
-    self.packets_received += 1
-    if self.element_id is None:
-        pass
-    elif self.element_id:
-        packet.perhop_time[self.element_id] = self.env.now
-    else:
-        DONTCARE('@p1.perhop_time')          # an id that is falsy but not None: not constrained
-    if self.qlimit is None:
-        self.byte_size = self.byte_size + packet.size
-        self.store.put(packet)
-    elif self.limit_bytes:
-        if self.byte_size + packet.size > self.qlimit:
-            self.packets_dropped += 1
-        else:
-            self.byte_size = self.byte_size + packet.size
-            self.store.put(packet)
-    else:
-        if len(self.store.items) >= self.qlimit - 1:
-            self.packets_dropped += 1
-        else:
-            self.byte_size = self.byte_size + packet.size
-            self.store.put(packet)
-'''
-
-PORT_RUN = '''
-def run(self, env):
-    while True:
-        packet = yield self.store.get()
-        self.busy = 1
-        self.busy_packet_size = packet.size
-        if self.rate > 0:
-            yield env.timeout(packet.size * 8 / self.rate)
-        self.byte_size -= packet.size
-        if self.out:
-            self.out.put(packet)
-        self.busy = 0
-        self.busy_packet_size = 0
-'''
+from . import netdev as N, resources as R, elements
 
 def check(ctx):
-    v = View(ignore_calls=('print',), ignore_targets=(), ignore_exit_value=True)
-    ctx.table('C09.R2', 'Port', 'put', PORT_PUT, v, what='Port.put accept/drop/stamp table')
-    ctx.table('C09.R1', 'Port', 'run', PORT_RUN, v, region=0, what='Port.run per-packet service')
-    return 'static path-table equivalence'
+    N.run_tables(ctx, 'C09', [('Port', '__init__'), ('Port', 'put'), ('Port', 'run'), ('REDPort', '__init__'),
+                              ('REDPort', 'put'), ('PortMonitor', '__init__'), ('PortMonitor', 'run'),
+                              ('PortMonitor', 'sizes'), ('PortMonitor', 'sizes_byte'),
+                              ('Device', 'element_id'), ('Device', 'element_id.setter'), ('OutMixIn', 'out'),
+                              ('OutMixIn', 'out.setter')])
+    R.run_tables(ctx, 'C09', [('Store', '_do_put'), ('Store', '_do_get'), ('Store', '__init__')])
+    elements.byte_accounting(ctx, 'C09')
+    elements.override_keeps_base_effects(ctx, 'C09')
+    elements.spawn_sites(ctx, 'C09', only=('Port', 'REDPort'))
+    elements.class_method_sets(ctx, 'C09', only=('Port', 'REDPort', 'PortMonitor'))
+    return ('Static: Port.put (thresholds held+size > qlimit / waiting >= qlimit-1 / never for None, byte accounting, hop '
+            'stamp), Port.run (one packet at a time, 8*size/rate, bytes released on every path, one forward), REDPort.put '
+            '(EWMA gain, three regions, one uniform draw) and PortMonitor.run compared with reference tables; inc/dec '
+            'pairing of byte_size across put and run; an overriding put keeps the base port\'s common effects. Departure '
+            'instants and drop frequencies are numeric/statistical and are not decided.')
